@@ -17,6 +17,7 @@ import (
 	"runtime/debug"
 	"sort"
 	"strings"
+	"time"
 
 	"github.com/henrylee2cn/erpc/v6/codec"
 	"github.com/henrylee2cn/erpc/v6/socket"
@@ -705,6 +706,27 @@ func frameOf(seq int32, method, body string) []byte {
 	return w.Bytes()
 }
 
+// guarded runs a read on the socket; if the read is still pending after the only P was yielded
+// thousands of times it is blocked on the connection (everything its peer wrote is already delivered:
+// it wants bytes nobody will send). It is then released through an expired read deadline and the
+// outcome says so. No clock takes part in the decision.
+func guarded(e *sockEnv, f func() string) string {
+	done := make(chan string, 1)
+	go func() { done <- f() }()
+	for i := 0; i < 4000; i++ {
+		select {
+		case s := <-done:
+			return s
+		default:
+			runtime.Gosched()
+		}
+	}
+	e.s.SetReadDeadline(time.Unix(1, 0))
+	s := <-done
+	e.s.SetReadDeadline(time.Time{})
+	return "BLOCKED waiting for more bytes than were delivered; after release: " + s
+}
+
 func readMsg(s socket.Socket) string {
 	m := socket.NewMessage()
 	m.SetNewBody(func(socket.Header) interface{} { return new([]byte) })
@@ -755,13 +777,15 @@ func applySock(e *sockEnv, o Op, log *[]string) {
 		e.far.Write(frameOf(int32(r.Intn(100)), "/first", "one"))
 		e.far.Write(frameOf(int32(r.Intn(100)), "/D-leftover", "D-leftover-body"))
 		e.far.Write([]byte("D-garbage"))
-		rec("%s", readMsg(e.s))
+		rec("%s", guarded(e, func() string { return readMsg(e.s) }))
 	case "read-partial":
 		e.misaligned = true
 		e.far.Write([]byte("D-partial-0123456789"))
-		b := make([]byte, 3)
-		n, err := e.s.Read(b)
-		rec("n=%d err=%v %q", n, err, b[:n])
+		rec("%s", guarded(e, func() string {
+			b := make([]byte, 3)
+			n, err := e.s.Read(b)
+			return fmt.Sprintf("n=%d err=%v %q", n, err, b[:n])
+		}))
 	case "unread-garbage":
 		e.misaligned = true
 		e.far.Write([]byte(strings.Repeat("D-unread", 200)))
@@ -799,11 +823,13 @@ func sockSnap(e *sockEnv) []KV {
 	out = append(out, KV{"RemoteAddr", fmt.Sprint(e.s.RemoteAddr().String() == e.near.RemoteAddr().String())})
 	// what the next user reads is exactly what its own connection delivers
 	e.far.Write(frameOf(42, "/fresh", "fresh-body"))
-	out = append(out, KV{"ReadMessage", readMsg(e.s)})
+	out = append(out, KV{"ReadMessage", guarded(e, func() string { return readMsg(e.s) })})
 	e.far.Write([]byte("tail!"))
-	b := make([]byte, 16)
-	k, err := e.s.Read(b)
-	out = append(out, KV{"Read", fmt.Sprintf("%q/%v", b[:k], err)})
+	out = append(out, KV{"Read", guarded(e, func() string {
+		b := make([]byte, 16)
+		k, err := e.s.Read(b)
+		return fmt.Sprintf("%q/%v", b[:k], err)
+	})})
 	// and what it writes arrives unchanged
 	m := socket.NewMessage()
 	m.SetSeq(9)
